@@ -45,6 +45,7 @@ def validate(E, seed, tier):
 
 
 META = {
+    "glue": ['groupby_lib/groupby/numba.py::_apply_cumulative', 'groupby_lib/groupby/numba.py::_build_target_for_groupby', 'groupby_lib/groupby/numba.py::cumcount', 'groupby_lib/groupby/numba.py::cummax', 'groupby_lib/groupby/numba.py::cummin', 'groupby_lib/groupby/numba.py::cumsum'],
     "bounds": {"quick": {"N": 4, "G": 2}, "thorough": {"N": 6, "G": 3, "extra": "N=8 for cumsum/cummax/cumcount float64"}},
     "enumerated": ["dtype", "skip_na", "mask present or not", "the two glue paths of _apply_cumulative (has_null_keys) by fork-and-replay"],
     "symbolic": ["group codes", "values and null flags", "boolean mask bits"],
